@@ -25,8 +25,8 @@ def config(tier):
         "families": ["G2"],
         "mc": [{"module": "MCSupergates", "cfg": "MCSupergates1", "workers": 4, "timeout": 1800, "env": {} if q else {"MC_FULL": "1"}},
                {"module": "MCSupergates", "cfg": "MCSupergatesD", "workers": 4, "timeout": 1800, "env": {} if q else {"MC_FULL": "1"}},
-               # the model reproduces known finding F-C17-shared-cones: outputs r and t = buf(r)
-               {"module": "MCSupergates", "cfg": "MCSupergatesS", "workers": 2, "timeout": 600, "expect": "violation"}],
+               # shared cones: holds since the repair that recognises a block found under two outputs as one (model-checked first)
+               {"module": "MCSupergates", "cfg": "MCSupergatesS", "workers": 4, "timeout": 1800, "env": {} if q else {"MC_FULL": "1"}}],
         "shards": 8 if q else 16,
         "negctl": 10,
     }
